@@ -13,7 +13,6 @@ import copy
 import datetime as dt
 import math
 import random
-import re
 import sys
 
 import framework as fw
@@ -1238,19 +1237,17 @@ def run_history(case):
     return {"steps": steps}
 
 
-KEY_CLASH = "C13/section-name-clash-other-type"
-
-
 # ----------------------------------------------------------------------------- the check
 class C13(fw.Check):
     prop = "C13"
     lean_targets = ["OdmlModel.Props.C13"]
     obligations = ["C13." + t for t in [
         "merge_check_predicts",
-        "merge_all_or_nothing_partial",
+        "merge_all_or_nothing",
         "merge_raise_is_value_error",
-        "clash_raises_key_error",
-        "merge_all_or_nothing_counterexample",
+        "name_clash_raises",
+        "merge_raises_iff",
+        "name_clash_witness",
         "strict_conflict_raises",
         "lenient_never_attr_conflict",
         "merge_complete",
@@ -1550,18 +1547,9 @@ class C13(fw.Check):
         return self.oracle_step(st, case["strict"], obs, case.get("planted"))
 
     def finding_key(self, case, obs, failure):
-        # known finding: a source sub-Section whose name is used in the destination by a Section
-        # of another type -> KeyError from SmartList.append after earlier children were merged
-        if case.get("stream") == "merge" and failure.startswith("partial:") and \
-                obs.get("outcome") == "KeyError" and type_clash(obs["before_d"], obs["before_s"]):
-            return KEY_CLASH
-        # the same finding reached inside a history: the judged step itself is such a merge
-        if case.get("stream") == "hist" and failure.startswith("partial:"):
-            m = re.search(r"\[(?:merge|link), step (\d+)\]$", failure)
-            for step in obs.get("steps", []) if m else []:
-                if step["k"] == int(m.group(1)) and step["outcome"] == "KeyError" and \
-                        type_clash(step["before_d"], step["before_s"]):
-                    return KEY_CLASH
+        # no open finding: C13/section-name-clash-other-type (a source sub-Section whose name the
+        # destination uses for a Section of another type: KeyError from SmartList.append after
+        # earlier children were merged) is fixed, a regression is a violation again
         return None
 
     def tag(self, case, obs):
